@@ -462,6 +462,15 @@ def build(case):
     return ad, plasma, beam, att
 
 
+ELEMENT_INDEX = {n: i + 1 for i, n in enumerate(['hydrogen', 'deuterium', 'tritium', 'helium', 'beryllium', 'carbon', 'nitrogen',
+                                                    'neon', 'argon', 'tungsten'])}
+
+
+def comp_key(species):
+    """(element, charge) as the number the Lean Composition model uses"""
+    return ELEMENT_INDEX[species.element.name] * 100 + species.charge
+
+
 def _mk_species(s):
     from cherab.core import Species
     from cherab.core.atomic import elements
@@ -498,6 +507,35 @@ class Scene:
                 self.model = BeamEmissionLine(self.line, self.beam, self.plasma, self.ad)
         if attached:
             self.beam.models = [self.model]      # the documented way: the beam hands plasma / beam / atomic data to the model
+        self.notes = 0
+        self.comp_log = []
+        self.plasma.notifier.add(self._note)
+
+    def _note(self):
+        self.notes += 1
+
+    def comp_op(self, op, items, do):
+        """perform a mutator of plasma.composition and record what the Composition state machine did:
+        items = Species objects / 'other' / None (in the order handed to the mutator)"""
+        before = list(self.plasma.composition)
+        n0 = self.notes
+        st, msg = call(do)
+        after = list(self.plasma.composition)
+
+        def ordinal(obj):
+            for j, it in enumerate(items):
+                if it is obj:
+                    return 100 + j
+            for i, b in enumerate(before):
+                if b is obj:
+                    return i
+            return -1
+
+        self.comp_log.append(dict(op=op, before=[comp_key(b) for b in before],
+                                  items=[(-2 if it is None else -1 if not hasattr(it, 'charge') else comp_key(it)) for it in items],
+                                  raised=st != 'ok', notified=self.notes > n0,
+                                  after=[(comp_key(a), ordinal(a)) for a in after]))
+        return st, msg
 
     def observe(self, case):
         """one emission() call for the current state described by `case`"""
@@ -575,14 +613,16 @@ class Scene:
             ns = redraw_species(rng, sp[i])
             ent[i] = (ns, i)
             new = set_species(case, rng, ent)
-            self.plasma.composition.add(_mk_species(ns))
+            obj = _mk_species(ns)
+            self.comp_op('add', [obj], lambda: self.plasma.composition.add(obj))
         elif change == 'composition.add:new-species':
             have = {(s['element'], s['charge']) for s in sp}
             el, z = rng.choice([q for q in POOL if q not in have])
             ns = redraw_species(rng, dict(element=el, charge=z))
             ent.append((ns, None))
             new = set_species(case, rng, ent)
-            self.plasma.composition.add(_mk_species(ns))
+            obj = _mk_species(ns)
+            self.comp_op('add', [obj], lambda: self.plasma.composition.add(obj))
         elif change in ('composition.set', 'plasma.composition=', 'plasma-swap'):
             keep = list(range(len(sp)))
             if len(keep) > 1 and rng.random() < 0.5:
@@ -593,9 +633,9 @@ class Scene:
             new = set_species(case, rng, ent)
             objs = [_mk_species(s) for s, _ in ent]
             if change == 'composition.set':
-                self.plasma.composition.set(objs)
+                self.comp_op('set', objs, lambda: self.plasma.composition.set(objs))
             elif change == 'plasma.composition=':
-                self.plasma.composition = objs
+                self.comp_op('set', objs, lambda: setattr(self.plasma, 'composition', objs))
             else:
                 new['B'] = [rnd_affine(rng, rng.uniform(-5, 5)) for _ in range(3)]
                 B = new['B']
@@ -605,6 +645,7 @@ class Scene:
                 pl.composition = objs
                 pl.atomic_data = self.ad
                 self.plasma = pl
+                pl.notifier.add(self._note)
                 if self.attached:
                     self.beam.plasma = pl
                 else:
@@ -701,7 +742,16 @@ def _apply_rejected(self, rng, case, change):
         'model.plasma=None': setattr_(self.model, 'plasma', None),
         'model.beam=None': setattr_(self.model, 'beam', None),
     }[what]
-    st, msg = call(act)
+    comp = {'plasma.composition=[species..., non-Species]': ('set', valid + ['not a species']),
+            'plasma.composition=[species..., None]': ('set', valid + ['none in a list']),
+            'composition.set([species..., non-Species])': ('set', valid + [42]),
+            'composition.set([non-Species, species...])': ('set', ['object'] + valid),
+            'composition.add(None)': ('add', [None]),
+            'composition.add(non-Species)': ('add', ['deuterium'])}.get(what)
+    if comp:
+        st, msg = self.comp_op(comp[0], comp[1], act)
+    else:
+        st, msg = call(act)
     self.last_rejection = (st, msg)
     new = copy.deepcopy(case)
     new['edge'] = 'after-' + change
@@ -1164,7 +1214,7 @@ def expand(ctx, case):
     """the evaluations one generated case stands for: [(state description, observation, change | None, previous obs)]"""
     re = case.get('reeval')
     if not re:
-        return [(case, run_impl(case), None, None)]
+        return [(case, run_impl(case), None, None)], []
     import random
     rng = random.Random(re['seed'])
     sc = Scene(case, re['attached'])
@@ -1187,7 +1237,7 @@ def expand(ctx, case):
         obs = sc.observe(cur)
         out.append((cur, obs, ch, prev if rejected else None))
         prev = obs
-    return out
+    return out, sc.comp_log
 
 
 def corpus_cases():
@@ -1220,14 +1270,29 @@ def process(ctx, cases):
     stats = dict(**{'bit-exact': 0, 'rounded': 0, 'maxrel': 0.0})
     lines = ['const ' + fs([E_CHARGE, AMU, RECIP_4_PI])]
     items = []
+    comps = []
     for root in cases:
-        for state, obs, change, prev in expand(ctx, root):
+        evals, comp_log = expand(ctx, root)
+        comps += [(root, rec) for rec in comp_log]
+        for state, obs, change, prev in evals:
             items.append((root, state, obs, change, prev))
             lines.append(model_line(state))
             lines.append(plasma_line(state))
     if not items:
         return stats
+    for root, rec in comps:
+        lines.append('comp %s %d %s %d %s' % (rec['op'], len(rec['before']), ' '.join(str(k_) for k_ in rec['before']),
+                                              len(rec['items']), ' '.join(str(k_) for k_ in rec['items'])))
     outs = ctx.driver(lines)
+    # K for the Composition state machine: raised / notified / resulting (key, object) list
+    for (root, rec), out in zip(comps, outs[1 + 2 * len(items):]):
+        want = '%s %d %s' % ('raised' if rec['raised'] else 'ok', 1 if rec['notified'] else 0,
+                             ' '.join('%d:%d' % ko for ko in rec['after']))
+        ctx.traces += 1
+        ctx.count('composition:%s:%s' % (rec['op'], 'rejected' if rec['raised'] else 'accepted'))
+        if out.split() != want.split():
+            ctx.disagreements += 1
+            ctx.broke('correspondence', 'C05 stream composition (%s)' % rec['op'], dict(model=out, implementation=want, record=rec, case=root))
     if outs[0] != 'ok':
         ctx.broke('correspondence', 'C05 driver const', outs[0])
     derailed = set()
